@@ -373,8 +373,8 @@ def check_atom_ord(repo, scratch):
         res["undecided"].append(base + "cmp_by_text: impl Ord for Atom not found (lost anchor)")
     elif body == "{ self . as_str ( ) . cmp ( & * other . as_str ( ) ) }":
         pass
-    elif re.search(r"\b(index|flat_index)\b", body) and "as_str" not in body:
-        res["failed"].append({"obligation": base + "cmp_by_text", "engine": "structural", "source": "Ord for Atom", "at": "src/atom_table.rs", "message": "atoms are compared by table index, not by text: " + body})
+    elif re.search(r"\b(index|flat_index)\b[^;{}]*\. cmp \(", body):
+        res["failed"].append({"obligation": base + "cmp_by_text", "engine": "structural", "source": "Ord for Atom", "at": "src/atom_table.rs", "message": "atoms (or some of them) are ordered by their index/encoding instead of their text: " + body[:300]})
     else:
         res["undecided"].append(base + "cmp_by_text: body not recognised: " + body[:120])
     return res
